@@ -2,6 +2,7 @@ package main
 
 import (
 	"fmt"
+	"unsafe"
 	"go/types"
 	"os"
 
@@ -176,6 +177,42 @@ func (ex *Exec) callBuiltin(caller *frame, fn *ssa.Builtin, args []Value) Value 
 	case "ssa:deferstack":
 		return &caller.defers
 
+	case "SliceData":
+		s := args[0].(Slice)
+		if s == nil {
+			return UnsafePtr{}
+		}
+		return UnsafePtr{S: s[:len(s):len(s)]}
+	case "StringData":
+		b, ok := strBytesOf(args[0])
+		if !ok {
+			ex.unsupported("unsafe.StringData of unbounded symbolic string")
+		}
+		return UnsafePtr{S: b}
+	case "String":
+		n := int(ex.concretize(args[1].(Int)))
+		if ep, isElem := args[0].(*Value); isElem {
+			// &b[0]: the pointer addresses an element of a []Value backing array
+			if n == 0 || ep == nil {
+				return ""
+			}
+			return ex.bytesToStr(Slice(unsafe.Slice(ep, n)))
+		}
+		p := args[0].(UnsafePtr)
+		if n > len(p.S) {
+			ex.unsupported("unsafe.String beyond the backing slice")
+		}
+		return ex.bytesToStr(Slice(p.S[:n]))
+	case "Slice":
+		p, ok := args[0].(UnsafePtr)
+		if !ok {
+			ex.unsupported("unsafe.Slice of a non-byte pointer")
+		}
+		n := int(ex.concretize(args[1].(Int)))
+		if n > len(p.S) {
+			ex.unsupported("unsafe.Slice beyond the backing slice")
+		}
+		return Slice(p.S[:n:n])
 	case "real", "imag", "complex":
 		ex.unsupported("complex builtins")
 	}
